@@ -81,7 +81,9 @@ class IntStr:
             if str(v) != o:
                 return False
             return self.n == v
-        raise Unsupported('comparison of str(int) with a symbolic string')
+        if isinstance(o, (SStr, StrCat)):
+            return flatten_str(I, self) == flatten_str(I, o)
+        return False
 
     def sym_str(self, I):
         return self
@@ -111,6 +113,58 @@ class StrCat:
 
     def __repr__(self):
         return f'StrCat({self.parts})'
+
+    def sym_eq(self, I, o):
+        if isinstance(o, (str, SStr, StrCat, IntStr)):
+            return flatten_str(I, self) == flatten_str(I, o)
+        return False
+
+    def sym_str(self, I):
+        return self
+
+    def sym_truth(self, vc):
+        return True
+
+
+def intstr_term(n):
+    """SMT term for str(n), n a symbolic int: uninterpreted, with the facts the repository relies on instantiated
+    per occurrence: injective (pairwise over the occurrences on this path), never empty, no '.', '/' in it, and
+    equal to the decimal literal for the small values that occur as constants (-1, 0)."""
+    vc = cur()
+    n = SInt.of(n)
+    c = conc(n)
+    if c is not None:
+        return z3.StringVal(str(c))
+    t = INTSTR_fn(n.t)
+    reg = vc.ghost.setdefault('__intstr_terms__', [])
+    for e in reg:
+        if e.eq(t):
+            return t
+    for e in reg:
+        vc.solver.add((e == t) == (e.children()[0] == n.t))
+    vc.solver.add(z3.Length(t) > 0)
+    vc.solver.add(z3.Not(z3.Contains(t, z3.StringVal('.'))))
+    vc.solver.add(z3.Not(z3.Contains(t, z3.StringVal('/'))))
+    for lit in (-1, 0, 1):
+        vc.solver.add((t == z3.StringVal(str(lit))) == (n.t == lit))
+    vc.solver.add(z3.PrefixOf(z3.StringVal('-'), t) == (n.t < 0))
+    reg.append(t)
+    return t
+
+
+def flatten_str(I, x):
+    """IntStr / StrCat / str / SStr -> SStr term."""
+    if isinstance(x, (str, SStr)):
+        return SStr.of(x)
+    if isinstance(x, IntStr):
+        return SStr(intstr_term(x.n))
+    if isinstance(x, StrCat):
+        out = None
+        for p in x.parts:
+            t = flatten_str(I, p)
+            out = t if out is None else out + t
+        return out if out is not None else SStr.of('')
+    raise Unsupported(f'not a string: {x!r}')
 
 
 def bytes_repeat(I, a, n):
@@ -665,7 +719,7 @@ class World:
         self.log = []                              # effect log (concrete tags with symbolic payloads)
 
     def data(self, ino):
-        return SBytes(z3.Select(self.idata, SInt.of(ino).t))
+        return SBytes(z3.simplify(z3.Select(self.idata, SInt.of(ino).t)))
 
     def set_data(self, ino, b):
         self.idata = z3.Store(self.idata, SInt.of(ino).t, SBytes.of(b).t)
@@ -791,6 +845,21 @@ class FileObj:
         data = self.content()
         if size is None or (not is_sym(size) and size < 0) or (is_sym(size) and I.vc.branch(SInt.of(size) < 0, label='readneg')):
             r = data.slice(self.kpos, None)
+        elif I.vc.profile.get('clamped_reads'):
+            # same value, written with the clamped count (a theorem of substr for a cursor >= 0); lets loop
+            # invariants of the form `consumed == content[:cursor]` match syntactically
+            I.require_internal('cursor_nonneg', self.kpos >= 0)
+            n = SInt.of(size)
+            if I.vc.branch(self.kpos + n <= data.length(), label='read:full'):
+                got = n
+            elif I.vc.branch(self.kpos <= data.length(), label='read:short'):
+                got = data.length() - self.kpos
+            else:
+                return b''
+            r = data.slice(self.kpos, self.kpos + got)
+            I.vc.assume(r.length() == got)
+            self.kpos = self.kpos + got
+            return r
         else:
             r = data.slice(self.kpos, self.kpos + SInt.of(size))
         # a cursor beyond EOF reads nothing; a negative cursor cannot exist (seek rejects it)
@@ -1187,6 +1256,23 @@ class ModuleObj:
         return f'<envmodule {self.name}>'
 
 
+class UnknownModule:
+    def __init__(self, name):
+        self.name = name
+
+    def sym_getattr(self, I, name):
+        return UnknownModule(f'{self.name}.{name}')
+
+    def sym_hasattr(self, I, name):
+        raise Unsupported(f'hasattr on unmodelled module {self.name}')
+
+    def sym_call(self, I, args, kwargs):
+        raise Unsupported(f'call of unmodelled library function {self.name}')
+
+    def sym_truth(self, vc):
+        return True
+
+
 def _fn(f):
     class _F:
         def sym_call(self, I, args, kwargs):
@@ -1292,9 +1378,13 @@ def import_module(I, name):
     vc = I.vc
     prof = vc.profile
     if name == 'os':
+        from . import fsmodel as FS
         return ModuleObj('os', {
             'fsync': _fn(os_fsync), 'open': _fn(os_open), 'close': _fn(os_close), 'name': prof.get('os.name', 'posix'),
-            'O_DIRECTORY': 65536, **vc.os_extra})
+            'O_DIRECTORY': 65536, **FS.os_module_attrs(), **vc.os_extra})
+    if name == 'pathlib':
+        from . import fsmodel as FS
+        return ModuleObj('pathlib', {'Path': FS.PathCtor()})
     if name == 'fcntl':
         if prof.get('fcntl', True) is False:
             raise_py('ImportError', 'fcntl')
@@ -1327,7 +1417,8 @@ def import_module(I, name):
                 'sqlalchemy.engine', 'sqlalchemy.orm.session', 'sqlalchemy.sql', 'sqlalchemy.sql.expression',
                 'disk_objectstore', 'disk_objectstore.database', 'disk_objectstore.container', 'disk_objectstore.cli'):
         return ModuleObj(name, {})
-    raise Unsupported(f'import of {name}')
+    # any other module: importable, but nothing in it has a model -- a *call* of one of its functions leaves the subset
+    return UnknownModule(name)
 
 
 def dc_asdict(I, obj):
@@ -1355,5 +1446,6 @@ class FieldVal:
 def open_(I, path, mode='r', **kw):
     opener = I.vc.open_hook
     if opener is None:
-        raise Unsupported('open() without a world file-system model')
+        from . import fsmodel as FS
+        return FS.open_file(I, path, mode, **kw)
     return opener(I, path, mode, **kw)
